@@ -128,10 +128,12 @@ type inFlightState struct {
 // f to mutate that state, and closes the connection if it is idle and either
 // is closing or has a read or write error.
 func (c *Connection) updateInFlight(f func(*inFlightState)) {
+	verifGate(c)
 	c.stateMu.Lock()
 	defer c.stateMu.Unlock()
 
 	s := &c.state
+	defer verifUpdated(c, verifEnter(c))
 
 	f(s)
 
@@ -405,6 +407,7 @@ func (ac *AsyncCall) IsReady() bool {
 
 // retire processes the response to the call.
 func (ac *AsyncCall) retire(response *Response) {
+	verifRetire(ac, response)
 	select {
 	case <-ac.ready:
 		panic(fmt.Sprintf("jsonrpc2: retire called twice for ID %v", ac.id))
